@@ -4,6 +4,8 @@ from __future__ import annotations
 import random
 
 from mbt import tlc
+from mbt.bind import afifostream as AB
+from mbt.bind import bufferop as BB
 from mbt.bind import fifostream as FB
 
 FIFO_CONSTS_QUICK = dict(MaxN=3, MaxCap=2, MaxConc=2, MaxFail=2)
@@ -83,3 +85,137 @@ def c08(ck, replay=None):
     fifo_conformance(ck, 'look-ahead/concurrency bounds under adversarial schedules', items)
     ck.finish_rc = ck.finish(rule='bounds are INVARIANTs of the trace spec, evaluated by TLC on every state of every '
                              'validated trace')
+
+
+# ---------------------------------------------------------------------------------------------------------------
+# BufferOp
+
+def buffer_cfg(max_n, max_size, invariants=(), properties=(), drain=True, forward=True, spec='Spec', deadlock=True):
+    return tlc.cfg_text(spec=spec, constants=dict(MaxN=max_n, MaxSize=max_size, DrainUntilJoined=drain,
+                                                  ForwardBase=forward),
+                        invariants=invariants, properties=properties, deadlock=deadlock)
+
+
+BUFFER_TRACE_CFG = tlc.cfg_text(spec='TraceSpec', constants=dict(MaxN=8, MaxSize=8, DrainUntilJoined=True,
+                                                                   ForwardBase=True),
+                                constraint='Progress', postcondition='Report', deadlock=False)
+
+
+def buffer_items(ck, count, seeds_per, strategies, **kw):
+    rnd = random.Random(ck.seed * 1000003 + 29)
+    scs = BB.gen_scenarios(rnd, count, **kw)
+    items, k = [], 0
+    for sc in scs:
+        for s in range(seeds_per):
+            k += 1
+            items.append({'id': k, 'sc': sc, 'seed': rnd.randrange(1 << 30), 'strategy': strategies[s % len(strategies)]})
+    return items
+
+
+def buffer_conformance(ck, name, items):
+    out = ck.run_binder('bufferop', items, timeout=900)
+    ck.evaluations += int(out.get('n_exec', 0))
+    for h in out.get('hangs', []):
+        ck.violation({'leg': 'L3', 'name': name, 'kind': 'hang-or-crash', 'status': h['status'],
+                      'detail': h.get('detail'), 'waitmap': h.get('waitmap'), 'exc': h.get('exc'),
+                      'item': {'sc': h['sc'], 'seed': h['seed'], 'strategy': h['strategy']}, 'events': h['ev'][-60:]},
+                     sig={'leg': 'L3', 'kind': 'hang', 'status': h['status'], 'op': 'buffer/' + h['sc']['kind'],
+                          'srcbase': h['sc']['srcbase'], 'exc': (h.get('exc') or '')[:60]})
+    ck.validate(name, 'BufferOpTrace', BUFFER_TRACE_CFG, out.get('traces', []),
+                sig_of=lambda t, v: {'op': 'buffer/' + t['sc']['kind']})
+    return out
+
+
+def c05(ck, replay=None):
+    thorough = ck.tier == 'thorough'
+    # --- design leg: no deadlock, clean end, no leak, and (under fairness) every iteration ends
+    ck.l1('BufferOp/safety', 'BufferOp',
+          buffer_cfg(5 if thorough else 4, 3, ['TypeOK', 'OutIsPrefix', 'EndOK', 'NoLeak']), may_skip=('Next',))
+    ck.l1('BufferOp/liveness', 'BufferOp',
+          buffer_cfg(3, 2, [], ['EventuallyClosed'], spec='FairSpec'), coverage=False)
+    consts = FIFO_CONSTS_THOROUGH if thorough else FIFO_CONSTS_QUICK
+    ck.l1('FifoStream/clean-end', 'FifoStream',
+          fifo_cfg(consts, ['EndOK', 'NoFeederLeak', 'NoWorkLeak'], modes=('sync', 'async')), may_skip=('Next',))
+    ck.l1('FifoStream/liveness', 'FifoStream',
+          fifo_cfg(dict(MaxN=2, MaxCap=1, MaxConc=2, MaxFail=1), [], ['EventuallyClosed'], modes=('sync',),
+                   spec='FairSpec'), coverage=False, timeout=1200)
+    # --- the code as found must fail in the model (vacuity guard for the spec)
+    ck.sensitive('Buffer: drain-once-then-join (D1)', 'BufferOp', buffer_cfg(3, 2, [], drain=False), 'deadlock')
+    ck.sensitive('Buffer: StopRequested not forwarded (D2)', 'BufferOp', buffer_cfg(3, 2, [], forward=False), 'deadlock')
+    ck.sensitive('fifo_stream: StopRequested not forwarded (D2)', 'FifoStream',
+                 fifo_cfg(dict(MaxN=2, MaxCap=1, MaxConc=1, MaxFail=0), [], forward_base=False), 'deadlock')
+    # --- conformance
+    buffer_conformance(ck, 'Buffer/AsyncBuffer under detsched',
+                       buffer_items(ck, 300 if thorough else 60, 8 if thorough else 5,
+                                    ['random', 'pct', 'starve_consumer', 'starve_producer', 'random']))
+    items = fifo_items(ck, 300 if thorough else 50, 6 if thorough else 4,
+                       ['random', 'pct', 'starve_consumer', 'starve_workers'], allow_base=True)
+    fifo_conformance(ck, 'fifo_stream/Parmapper early stop + failures under detsched', items)
+    ck.assumptions += ['a hang is a deadlock/livelock detected by detsched (no runnable thread, no pending timer)',
+                       'process executors and the SyncIter/AsyncIter adapters are covered by separate legs when built']
+    ck.finish_rc = ck.finish(rule='every stop position / failure position of the scenario grid x schedule seeds; hang = '
+                             'detected deadlock; traces validated by TLC incl. NoLeak/EndOK on every state')
+
+
+# ---------------------------------------------------------------------------------------------------------------
+# C16: async = sync
+
+ASYNC_TRACE_CFG = TRACE_CFG.replace('MaxCap = 8', 'MaxCap = 256')
+
+
+def outputs_of(t):
+    ys = [(e['x'], e['y'], e['kind']) for e in t['ev'] if e['ev'] == 'Yield']
+    end = [(e['k'], e['i']) for e in t['ev'] if e['ev'] == 'Closed']
+    return ys, end
+
+
+def c16(ck, replay=None):
+    thorough = ck.tier == 'thorough'
+    consts = FIFO_CONSTS_THOROUGH if thorough else FIFO_CONSTS_QUICK
+    ck.l1('FifoStream/async', 'FifoStream',
+          fifo_cfg(consts, ['TypeOK', 'OutIsPrefix', 'CalledOnce', 'EndOK'], ['OutAppendOnly'], modes=('async',)),
+          may_skip=('Next',))
+    ck.sensitive('async feeder enqueues stale/unbound task for a rejected element (D3)', 'FifoStream',
+                 fifo_cfg(dict(MaxN=3, MaxCap=2, MaxConc=2, MaxFail=2), ['OutIsPrefix', 'EndOK'], modes=('async',),
+                          async_binds=False), 'invariant')
+    rnd = random.Random(ck.seed * 1000003 + 31)
+    scs = AB.gen_scenarios(rnd, 250 if thorough else 50)
+    seeds_per = 6 if thorough else 4
+    a_items, s_items, k = [], [], 0
+    for sc in scs:
+        for j in range(seeds_per):
+            k += 1
+            a_items.append({'id': k, 'sc': sc, 'seed': rnd.randrange(1 << 30)})
+            ssc = dict(sc, mode='sync', variant='fifo', conc=1 + (k % 3))
+            s_items.append({'id': k, 'sc': ssc, 'seed': rnd.randrange(1 << 30),
+                            'strategy': ['random', 'pct', 'starve_workers'][j % 3]})
+    aout = ck.run_binder('afifostream', a_items, timeout=900)
+    sout = ck.run_binder('fifostream', s_items, timeout=900)
+    ck.evaluations += int(aout.get('n_exec', 0)) + int(sout.get('n_exec', 0))
+    for who, out in (('async', aout), ('sync', sout)):
+        for h in out.get('hangs', []):
+            ck.violation({'leg': 'L3', 'kind': 'hang-or-crash', 'flavour': who, 'status': h['status'],
+                          'detail': h.get('detail'), 'exc': h.get('exc'), 'waitmap': h.get('waitmap'),
+                          'item': {'sc': h['sc'], 'seed': h['seed']}, 'events': h['ev'][-60:]},
+                         sig={'leg': 'L3', 'kind': 'hang', 'flavour': who, 'exc': (h.get('exc') or '')[:40]})
+    ck.validate('async_fifo_stream / AsyncParmapperAsync on a virtual-time loop', 'FifoStreamTrace', ASYNC_TRACE_CFG,
+                aout.get('traces', []), sig_of=fifo_sig)
+    ck.validate('fifo_stream on the same scenarios', 'FifoStreamTrace', TRACE_CFG, sout.get('traces', []),
+                sig_of=fifo_sig)
+    # direct comparison of the two flavours on identical scenarios (both have been validated against the same spec)
+    sync_by = {t['id']: t for t in sout.get('traces', [])}
+    ncmp = 0
+    for t in aout.get('traces', []):
+        u = sync_by.get(t['id'])
+        if u is None:
+            continue
+        ncmp += 1
+        if outputs_of(t) != outputs_of(u):
+            ck.violation({'leg': 'L3', 'kind': 'async-differs-from-sync', 'async': outputs_of(t), 'sync': outputs_of(u),
+                          'item': {'sc': t['sc'], 'seed': t['seed']}, 'events': t['ev']},
+                         sig={'leg': 'L3', 'kind': 'async-differs-from-sync', 'variant': t['sc']['variant']})
+    ck.legs.append({'leg': 'L3', 'name': 'async vs sync outputs compared', 'pairs': ncmp})
+    ck.notes.append('AsyncServer.call/stream vs Server.call/stream is decided by the ServerCore legs (C02/C06), which run both '
+                    'flavours against the same specification')
+    ck.finish_rc = ck.finish(rule='per scenario: per-call virtual durations -> completion order; async and sync flavour run '
+                             'on the same scenario, both validated by TLC against FifoStream, outputs compared')
